@@ -41,7 +41,11 @@ func (s *State) Get(name string, sort Sort) *Term {
 	if t, ok := s.comps[name]; ok {
 		return t
 	}
-	allSorts[name] = sort
+	if reg, ok := allSorts[name]; ok {
+		sort = reg // the registered (type-derived) sort wins over a sort inferred from a value
+	} else {
+		allSorts[name] = sort
+	}
 	var t *Term
 	if len(s.parents) > 0 {
 		t = s.parents[len(s.parents)-1].Get(name, sort)
@@ -56,7 +60,9 @@ func (s *State) Get(name string, sort Sort) *Term {
 }
 
 func (s *State) Set(name string, t *Term) {
-	allSorts[name] = t.Sort
+	if _, ok := allSorts[name]; !ok {
+		allSorts[name] = t.Sort
+	}
 	s.comps[name] = t
 }
 
